@@ -153,6 +153,39 @@ def confusable_groups():
     ]
 
 
+def confusable_ts_ops():
+    """Timestamp inputs that compare/hash equal (or look alike) but denote
+    different instants or types: both folds of a repeated wall-clock hour,
+    naive vs aware with the same fields, struct_time with differing isdst."""
+    import zoneinfo
+    out = []
+    gi = 100
+    falls = [('America/New_York', (2024, 11, 3, 1, 30, 0)),
+             ('Europe/London', (2024, 10, 27, 1, 15, 0)),
+             ('Australia/Lord_Howe', (2024, 4, 7, 1, 45, 0)),
+             ('America/Sao_Paulo', (2019, 2, 16, 23, 30, 0))]
+    for zone, f in falls:
+        gi += 1
+        z = zoneinfo.ZoneInfo(zone)
+        for fold in (0, 1):
+            dt = datetime.datetime(*f, tzinfo=z, fold=fold)
+            out.append((gi, {'op': 'enc', 'fn': 'timestamp',
+                             'v': to_desc(dt)}))
+            out.append((gi, {'op': 'enc', 'fn': 'field_table',
+                             'v': {'d': [['t', to_desc(dt)]]}}))
+    gi += 1
+    naive = datetime.datetime(2024, 7, 1, 12, 0, 0)
+    for v in (naive, naive.replace(tzinfo=UTC),
+              naive.replace(tzinfo=datetime.timezone(
+                  datetime.timedelta(hours=5, minutes=30)))):
+        out.append((gi, {'op': 'enc', 'fn': 'timestamp', 'v': to_desc(v)}))
+    gi += 1
+    for isdst in (0, 1, -1):
+        st = time.struct_time((2024, 7, 1, 12, 0, 0, 0, 183, isdst))
+        out.append((gi, {'op': 'enc', 'fn': 'timestamp', 'v': to_desc(st)}))
+    return out
+
+
 def confusable_ops(r):
     """[(group id, op)] - each value in a few encoder positions."""
     out = []
@@ -197,6 +230,10 @@ def build_catalogue(check, seed, size):
         for gi, op in confusable_ops(r):
             op = dict(op, confusable=gi)
             cat.append(op)
+    if check in ('C15', 'C16'):
+        for gi, op in confusable_ts_ops():
+            op = dict(op, confusable=gi)
+            cat.append(op)
     marker = 0
     while len(cat) < size:
         marker += 1
@@ -224,8 +261,11 @@ def build_catalogue(check, seed, size):
                     continue
                 add({'op': 'unmarshal', 'b': data.hex()})
             elif c < 0.80:
-                d = g.frame(marker, (('method', 3), ('header', 2)))
-                data = _try_encode(d)
+                if r.random() < 0.5:
+                    d, data = gen_a.table_heavy_frame(r, g, marker)
+                else:
+                    d = g.frame(marker, (('method', 3), ('header', 2)))
+                    data = _try_encode(d)
                 if data is None or len(data) < 9:
                     continue
                 fl = gen_a.corrupt_fault(r, 0, data, gen_a.CORRUPT_KINDS)
@@ -234,7 +274,7 @@ def build_catalogue(check, seed, size):
                     b[off:off + dl] = bytes.fromhex(hx)
                 from sim import wiremap
                 nd = wiremap.reframe(bytes(b)) if fl['reframe'] else bytes(b)
-                add({'op': 'unmarshal', 'b': nd.hex()})
+                add({'op': 'unmarshal', 'b': nd.hex(), 'damaged': True})
             elif c < 0.90:
                 fn = r.choice(['field_table', 'field_array',
                                'encode_table_value', 'table_integer',
@@ -256,11 +296,16 @@ def build_catalogue(check, seed, size):
                     data = lib.encode.field_table(v)
                 except Exception:
                     continue
+                dmg = False
                 if r.random() < 0.3 and len(data) > 5:
                     b = bytearray(data)
                     b[r.randrange(len(b))] = r.getrandbits(8)
                     data = bytes(b)
-                add({'op': 'dec', 'fn': 'field_table', 'b': data.hex()})
+                    dmg = True
+                op = {'op': 'dec', 'fn': 'field_table', 'b': data.hex()}
+                if dmg:
+                    op['damaged'] = True
+                add(op)
         elif check == 'C12':
             k = r.random()
             if k < 0.22:
@@ -378,8 +423,14 @@ def build_catalogue(check, seed, size):
                 v = int_only_value(r, 0)
                 if not isinstance(v, list):
                     v = [v]
-                add({'op': 'enc', 'fn': 'field_array', 'v': to_desc(v),
-                     'c11': True})
+                if r.random() < 0.4:
+                    # long arrays of plain ints with a wide spread
+                    v = [ladder_int(r) for _ in range(r.randint(8, 40))]
+                    v = [x for x in v if -2**63 <= x <= 2**63 - 1] or [0]
+                    if r.random() < 0.5:
+                        v = {'deep': [v, {'k': v[:9]}]}
+                add({'op': 'enc', 'fn': 'field_array' if isinstance(v, list)
+                     else 'field_table', 'v': to_desc(v), 'c11': True})
             elif k < 0.80:
                 t = int_only_value(r, 0)
                 if not isinstance(t, dict):
@@ -411,6 +462,18 @@ def build_catalogue(check, seed, size):
 
 
 # ------------------------------------------------------------------- traces
+
+_FAULTY = {}
+
+
+def faulty_ops(cat):
+    """Catalogue ops that decode damaged bytes."""
+    k = id(cat)
+    if k not in _FAULTY:
+        _FAULTY.clear()
+        _FAULTY[k] = [o for o in cat if o.get('damaged')]
+    return _FAULTY[k]
+
 
 def setattr_op(r, ref, src_op):
     """Attribute assignment on a held constructed frame."""
@@ -491,6 +554,8 @@ def gen_trace(rng, check, population, tier, cat):
         L = r.randint(4, 30) if not threaded else r.randint(3, 14)
         if population == 'long':
             L = r.randint(150, 400)
+        if population == 'long_faulty':
+            L = r.randint(300, 700)
         for i in range(L):
             c = r.random()
             if toggles and c < (0.18 if check == 'C11' else 0.08):
@@ -524,7 +589,23 @@ def gen_trace(rng, check, population, tier, cat):
                     else:
                         prog.append({'op': 'marshal_slot', 'ref': ref})
                     continue
+            if prog and r.random() < 0.12:
+                # the same call again (right away, or one from a moment ago)
+                back = [o for o in prog[-4:] if o['op'] in (
+                    'marshal', 'construct', 'unmarshal', 'enc', 'dec')]
+                if back:
+                    prog.append(back[-1] if r.random() < 0.6
+                                else r.choice(back))
+                    continue
             op = r.choice(cat)
+            if population == 'long_faulty' and r.random() < 0.5:
+                faulty = faulty_ops(cat)
+                if faulty:
+                    op = r.choice(faulty)
+                    if r.random() < 0.08:
+                        # hammer: the same failing decode many times over -
+                        # whatever an error path leaks adds up
+                        prog.extend([op] * r.randint(40, 200))
             prog.append(op)
             if 'confusable' in op and r.random() < 0.7:
                 # its equal-but-different siblings belong in the same history
@@ -538,6 +619,9 @@ def gen_trace(rng, check, population, tier, cat):
     tr['schedule'], tr['policy'] = gen_schedule(r, n, est)
     tr['exit_picks'] = [r.randrange(8) for _ in range(4)]
     tr['first'] = r.randrange(n)
+    if n > 1 and r.random() < 0.5:
+        tr['novel'] = {'every': r.choice([1, 1, 2, 3, 5]),
+                       'picks': [r.randrange(8) for _ in range(6)]}
     ncancel = r.choice([0, 0, 0, 1, 2]) if check in ('C16', 'C12') else 0
     tr['cancels'] = sorted(r.randint(1, max(2, est)) for _ in range(ncancel))
     return tr
